@@ -142,6 +142,20 @@ func tagValueP(tag int) any {
 		return &PubStruct{A: 1, B: "same"}
 	case tag > 0 && tag%9 == 7:
 		return nestedProbe(tag)
+	case tag > 0 && tag%17 == 8:
+		// handles of the package's own types held by pointer or as an alias: stored values like any other
+		p := nestedProbe(tag)
+		return &p
+	case tag > 0 && tag%19 == 9:
+		return MyStack(nestedProbe(tag))
+	case tag > 0 && tag%23 == 10:
+		a := MyStack(nestedProbe(tag))
+		return &a
+	case tag > 0 && tag%29 == 11:
+		return stackage.Cond("k"+itoa(tag), stackage.Eq, tag)
+	case tag > 0 && tag%31 == 12:
+		c := stackage.Cond("k"+itoa(tag), stackage.Ne, "v")
+		return &c
 	}
 	return tagValue(tag)
 }
